@@ -8,7 +8,7 @@ from ..astutil import calls_in, norm_stmt, path_of, unparse, walk_scope, walk_st
 from ..cfg import own_exprs
 from ..facts import Fact, atoms, enumerate_paths
 from ..report import Ctx
-from .common import always_before, guard, increment_of, need, node_of, protocol_schema, stmts_matching
+from .common import always_before, expand, guard, increment_of, need, node_of, protocol_schema, single_defs, stmts_matching
 
 PAX = "happysimulator/components/consensus/paxos.py"
 MP = "happysimulator/components/consensus/multi_paxos.py"
@@ -214,6 +214,12 @@ def rule_once_per_ballot(ctx: Ctx) -> None:
         app = [c for c in calls_in(hp.node) if isinstance(c.func, ast.Attribute) and c.func.attr == "append" and "self._phase1_responses" in unparse(c.func.value)]
         ok = len(app) == 1 and not always_before(ctx, hp, lambda x: x is node_of(ff.cfg, app[0]), lambda x: x is node) and ff.holds_at(node_of(ff.cfg, app[0]), Fact("in", "ballot_number", "self._phase1_responses"))
         ctx.ob("C12-4", "G2", hp, app[0] if app else None, ok, f"{cname}: a promise is tallied once, only for a ballot this node started, before the quorum test")
+        # ... and under the ballot the *message* names: a late promise for an abandoned ballot must not count for the current candidacy
+        key = app[0].func.value.slice if app and isinstance(app[0].func.value, ast.Subscript) else None
+        kexp = expand(key, single_defs(hp)) if key is not None else None
+        ktxt = unparse(kexp).replace(" ", "") if kexp is not None else ""
+        okk = kexp is not None and ("['ballot_number']" in ktxt or ".get('ballot_number'" in ktxt) and ("metadata" in ktxt or "event.context" in ktxt) and "self." not in ktxt
+        ctx.ob("C12-4", "G7", hp, app[0] if app else None, okk, f"{cname}: the tally a promise goes into is selected by the ballot number carried in the promise itself (`{ktxt}`), not by the node's current state")
     ctx.floor("C12-4", 6)
 
 
@@ -522,6 +528,7 @@ def run(ctx: Ctx) -> None:
 
 
 MUTANTS = [
+    ("flexible-promise-tallied-under-current-ballot", FP, "        ballot_number = metadata[\"ballot_number\"]\n", "        ballot_number = self._current_ballot.number\n", "C12-4"),
     ("multipaxos-accept-fills-gap", MP, '        if slot > self._log.last_index + 1:\n            # An earlier slot has not arrived yet: appending would file this\n            # command under the wrong slot. Wait until the gap is filled.\n            return []\n', "", "C12-14"),
     ("flexible-accept-fills-gap", FP, '        if slot > self._log.last_index + 1:\n            # An earlier slot has not arrived yet: appending would file this\n            # command under the wrong slot. Wait until the gap is filled.\n            return []\n', "", "C12-14"),
     ("multipaxos-accept-gap-off-by-one", MP, "        if slot > self._log.last_index + 1:\n            # An earlier", "        if slot > self._log.last_index + 2:\n            # An earlier", "C12-14"),
